@@ -168,7 +168,7 @@ def run_case(case, real_pool=False):
         elif t == "parallel_true":
             opts["parallel"] = True
         elif t == "num_workers":
-            opts["num_workers"] = 2
+            opts["num_workers"] = strat.get("workers", 2)
 
         dup = case.get("duplicate")
         try:
@@ -295,8 +295,8 @@ def run_case_pool(case):
 
 IN_PROCESS = ["seq", "seq", "fake_submit", "fake_submit", "fake_apply_async",
               "thread_cf", "thread_mp"]
-REAL_POOLS = ["process_cf", "process_mp", "parallel_true", "num_workers",
-              "thread_cf", "thread_mp"]
+REAL_POOLS = ["num_workers", "process_cf", "process_mp", "num_workers",
+              "parallel_true", "thread_cf", "thread_mp", "num_workers"]
 
 
 @st.composite
@@ -323,6 +323,8 @@ def strategy(draw, types=IN_PROCESS, max_args=5):
         strat["shuffle"] = sh
     if t.startswith("fake"):
         strat["perm_seed"] = draw(st.integers(0, 10**6))
+    if t == "num_workers":
+        strat["workers"] = draw(st.sampled_from([2, 3, 1, 3]))
     case = {"twin": draw(st.booleans()),
             "args": args, "spelling": spell, "containers": conts,
             "constants": consts, "kind": kind, "split": split, "flat": flat,
@@ -339,14 +341,28 @@ def strategy(draw, types=IN_PROCESS, max_args=5):
     return case
 
 
-def pool_strategy():
-    return strategy(types=REAL_POOLS, max_args=3)
+@st.composite
+def pool_strategy(draw):
+    # up to 4 arguments: 100+ combinations, several chunks per worker; for
+    # the default process pool grid sizes such as 9, 18, 27, 54, 64, 81, 108
+    # (which do not divide evenly among 1-3 workers' chunks) are favoured
+    case = draw(strategy(types=REAL_POOLS, max_args=4))
+    if case["strategy"]["type"] == "num_workers" and \
+            case.get("duplicate") is None:
+        k = draw(st.integers(2, 4))
+        lens = [draw(st.sampled_from([3, 3, 2, 4, 3])) for _ in range(k)]
+        case["args"] = [[nm, list(range(10 * i, 10 * i + n))]
+                        for i, (nm, n) in enumerate(zip("wxyz", lens))]
+        case["containers"] = ["list"] * k
+        case["spelling"] = "dict"
+        case["constants"] = {}
+    return case
 
 
 PHASES = [
     Phase("inproc", run_case, strategy=strategy,
           examples={"quick": 6000, "thorough": 300000}),
     Phase("pools", run_case_pool, strategy=pool_strategy,
-          examples={"quick": 48, "thorough": 2400},
+          examples={"quick": 120, "thorough": 2400},
           shards={"quick": 8, "thorough": 8}, shrink=False),
 ]
